@@ -1,4 +1,5 @@
 import Pog.Lemmas.Ops
+import Pog.Props.ClientGen
 /-
   C07 (operation side) — every (path, method) operation of an accepted document is callable as exactly one
   async method on the client of each of its tags (or of `default`); distinct operations never collapse into
@@ -30,6 +31,17 @@ import Pog.Lemmas.Ops
           ASCII alphanumeric), full for the PATH strategy `path_strategy_method_names_valid`,
           witness `method_names_valid_counterexample`
 -/
+/-
+  C07, "the tag client is reachable as a property of APIClient" (Pog/Model/ClientGen.lean mirrors `ClientVisitor.visit`,
+  `_generate_client_implementation`, `generate_client_protocol`, `generate_client_mock_class` as class SKELETONS; tied by vf/corr/client.py;
+  proved in Pog/Props/ClientGen.lean, claimed here):
+    every_tag_group_has_a_property         every tag of every operation (or `default`) has the property `sanModule(canonical tag)` returning
+                                           `sanClass(canonical)+"Client"`; one property per distinct normalised key (`property_count`)
+    tag_clients_are_properties             the properties are a permutation of the emitter's tag clients (module, class)
+    properties_survive_partial             every property survives in the finished class for ASCII tags with no `request` / `close` group
+    ✗ property_shadowed_counterexample / property_names_counterexample (F64)   a tag `request` / `close` / `transport`
+-/
+-- INDEX Pog.ClientGenProps: visit_never_raises, tag_tuples_one_per_key, tag_tuples_sorted_by_key, every_tag_group_has_a_property, property_count, tag_clients_are_properties, properties_survive_partial, property_shadowed_counterexample, property_names_counterexample, property_names_partial
 namespace Pog.C07
 open Pog Pog.Ops
 
